@@ -410,7 +410,7 @@ int janet_verify(JanetFuncDef *def) {
      * instruction encoding can address, so that frame size arithmetic cannot overflow. */
     if (sc < 0 || sc > 0xFFFFFF) return 2;
     if (def->arity < 0 || def->arity > sc) return 2;
-    if (def->min_arity < 0 || def->max_arity < 0) return 2;
+    if (def->min_arity < 0 || def->max_arity < 0 || def->min_arity > def->max_arity) return 2;
     if (maxslot > sc) return 2;
 
     /* An environment entry is either -1 (capture the parent's frame) or an index into the parent's
